@@ -519,6 +519,22 @@ def gen_generic_program(rng, name, n_generics=None, n_ifaces=None, iface_assoc=T
                 if t.kind != "tuple":
                     h["resp_ti"] = intern_type(p, t)
                     [h.pop(k_, None) for k_ in ("resp_explicit", "resp_decl_ti", "resp_literal")]
+    # a concrete type whose *path ends in* the name of a parameter (svmon::named::ExecT) is not a use of that parameter
+    def named(nme):
+        return T.Ty(f"svmon::named::{nme}", lambda r, d: {"v": r.randrange(1000)}, "struct")
+    for part in p["parts"]:
+        domain = names if part["id"] == "c" else [n for n, _ in part.get("assoc", [])]
+        if not domain or rng.random() < 0.5:
+            continue
+        nme = rng.choice(domain)
+        hs = [h for h in part["handlers"] if h["kind"] != "reply"]
+        if hs:
+            h = rng.choice(hs)
+            taken = {a["name"] for a in h["args"]}
+            if "tagged" not in taken:
+                h["args"].append({"name": "tagged", "ti": intern_type(p, rng.choice([named(nme), T.option(named(nme)), T.vec(named(nme))]))})
+                if h["kind"] == "query" and rng.random() < 0.3 and not h.get("resp_explicit"):
+                    h["resp_ti"] = intern_type(p, named(nme))
     if generic_error:
         # the contract's error type is a type parameter: it occurs in every handler's result type, in no argument
         # and in no response type, so no message type carries it
